@@ -15708,3 +15708,60 @@ func E11SVGStyleElement(c *core.Ctx, r *core.Report) {
 		r.OK("E11.svg-style-element", key, c.Pos(branch.Pos()), "")
 	}
 }
+
+// E11NumberListSeparators: what separates the numbers of an SVG number list.
+func E11NumberListSeparators(c *core.Ctx, r *core.Report) {
+	r.Rule("E11.number-list-separators", "the numbers of `points`, of transform arguments and of dash arrays are separated by white space (space, tab, new line, carriage return) and/or a comma, and a sign that does not follow an exponent starts a new number (`10-5`). svgParser.parsePoints names each of the four white-space bytes and both signs — in comparisons with the byte at hand or as the text a replacement looks for — and the sign case looks at the byte in front (an index minus one). Without the sign case minified documents are rejected; without '\\r' documents with CRLF line ends are")
+	p := c.MustPkg("")
+	info := p.TypesInfo
+	fd := core.MustFuncDecl(p, "svgParser.parsePoints")
+	seen := map[byte]bool{}
+	ast.Inspect(fd.Body, func(m ast.Node) bool {
+		e, ok := m.(ast.Expr)
+		if !ok {
+			return true
+		}
+		if tv, ok := info.Types[e]; ok && tv.Value != nil {
+			switch tv.Value.Kind() {
+			case constant.Int:
+				if v, ok := constant.Int64Val(tv.Value); ok && v > 0 && v < 128 {
+					if bt, ok := tv.Type.Underlying().(*types.Basic); ok && (bt.Kind() == types.UntypedRune || bt.Kind() == types.Uint8 || bt.Kind() == types.Int32) {
+						seen[byte(v)] = true
+					}
+				}
+			case constant.String:
+				if s := constant.StringVal(tv.Value); len(s) == 1 {
+					seen[s[0]] = true
+				}
+			}
+		}
+		return true
+	})
+	lookBack := false
+	ast.Inspect(fd.Body, func(m ast.Node) bool {
+		if ie, ok := m.(*ast.IndexExpr); ok {
+			if be, ok := core.Unparen(ie.Index).(*ast.BinaryExpr); ok && be.Op == token.SUB {
+				if v, ok := core.ConstInt(info, be.Y); ok && v == 1 {
+					lookBack = true
+				}
+			}
+		}
+		return true
+	})
+	key := "canvas.svgParser.parsePoints|separators of a number list"
+	r.Count("E11.number-list-separators", 1)
+	var missing []string
+	for _, b := range []byte{' ', '\t', '\n', '\r', '-', '+'} {
+		if !seen[b] {
+			missing = append(missing, fmt.Sprintf("%q", string(b)))
+		}
+	}
+	switch {
+	case len(missing) > 0:
+		r.Fail("E11.number-list-separators", key, c.Pos(fd.Pos()), "parsePoints does not mention "+strings.Join(missing, ", ")+": lists that rely on it as a separator are rejected as a bad number array")
+	case !lookBack:
+		r.Fail("E11.number-list-separators", key, c.Pos(fd.Pos()), "a sign is treated without a look at the byte in front of it: the sign of an exponent (`1e-3`) would split the number")
+	default:
+		r.OK("E11.number-list-separators", key, c.Pos(fd.Pos()), "")
+	}
+}
